@@ -45,6 +45,11 @@ try:
 except ImportError:
     pass
 try:
+    import gen_journal
+    MODULES['Journal'] = gen_journal.generate
+except ImportError:
+    pass
+try:
     import gen_keys
     MODULES['Keys'] = gen_keys.generate
 except ImportError:
